@@ -364,6 +364,42 @@ def refusal_guards(prog: Program, res: Results) -> None:
                     f"{f.key}: `{norm(n.ast)}` (one-segment path) is reachable while `{root}` — an attrpath-derived binding of the same "
                     f"name anywhere in the set — may exist: `set a V` on `a = {{ x = 1; }}; a.y = 2;` is no longer refused and leaves "
                     f"two conflicting definitions of `a`")
+    # (a') the removal twin: a one-segment `rm` inside a let layer deletes only when no attrpath-derived binding has that name —
+    # looking at the first binding of the name alone misses `a = {...}; a.b = 2;`
+    f2 = prog.funcs.get("_remove_value_in_attrset")
+    if f2 is not None:
+        roots2 = [n.targets[0].id for n in walk_no_nested(f2.node) if isinstance(n, ast.Assign) and isinstance(n.targets[0], ast.Name)
+                  and isinstance(n.value, ast.Call) and callee(n.value) == "_find_attrpath_root"]
+        seg2 = next((n.targets[0].id for n in walk_no_nested(f2.node) if isinstance(n, ast.Assign) and isinstance(n.targets[0], ast.Name)
+                     and isinstance(n.value, ast.Call) and callee(n.value) in ("_parse_npath", "_format_npath_segments")), "segments")
+        cfg2 = CFG(f2.node)
+
+        def one_segment2(a, truth):
+            t = norm(a)
+            return (t == f"len({seg2}) == 1" and truth is True) or (t == f"len({seg2}) != 1" and truth is False) or \
+                   (t in (f"len({seg2}) > 1", f"len({seg2}) >= 2") and truth is False)
+
+        e_one2 = edges_establishing(cfg2, one_segment2)
+        dels = [n for n in cfg2.nodes if isinstance(n.ast, ast.Delete) and any(isinstance(t, ast.Subscript) for t in n.ast.targets)
+                and e_one2 and cfg2.all_paths_pass(n, cut_edges=e_one2)]
+        if len(roots2) == 1 and dels:
+            res.analysed_functions.add(f2.key)
+            root2 = roots2[0]
+
+            def no_family2(a, truth):
+                t = norm(a)
+                return (t == f"{root2} is None" and truth is True) or (t == f"{root2} is not None" and truth is False) or (t == root2 and truth is False)
+
+            e_nf2 = edges_establishing(cfg2, no_family2)
+            for n in dels:
+                r.instances += 1
+                ok = bool(e_nf2) and cfg2.all_paths_pass(n, cut_edges=e_nf2)
+                r.ob(ok, {"site": f2.key, "delete": norm(n.ast), "guard": f"{root2} is None"})
+                if not ok:
+                    res.add("R-C08-5", (f2.key, "name deleted without the attrpath-root refusal", norm(n.ast)[:40]), f2.loc(n.ast),
+                            f"{f2.key}: `{norm(n.ast)}` (one-segment path) is reachable while `{root2}` — an attrpath-derived binding of "
+                            f"the same name anywhere in the layer — may exist: `rm @a` on `let a = {{ x = 1; }}; a.b = 2; in …` is no "
+                            f"longer refused and silently deletes the explicit binding")
     # (b) empty segments
     g = prog.func("_parse_npath")
     res.analysed_functions.add(g.key)
